@@ -103,6 +103,74 @@ func c20Config(c *Ctx, prog *load.Program) {
 			written[g] = append(written[g], fmt.Sprintf("%s at %s (%s)", shortFn(f), PosStr(prog, w.Pos), w.What))
 		}
 	}
+	// objects that are made to point into package-level memory: if some function stores a pointer into the memory of
+	// package-level variable g in an object of module type T (or returns such an object), every write through an operand of
+	// type T may be a write to g (the heap abstraction is per type here: which T-object holds the pointer is not tracked)
+	typeGlobals := map[string]map[*ssa.Global]string{}
+	typeKey := func(t types.Type) string {
+		if p, ok := t.Underlying().(*types.Pointer); ok {
+			if nt, isN := p.Elem().(*types.Named); isN && nt.Obj().Pkg() != nil && load.IsModulePkg(nt.Obj().Pkg().Path()) {
+				return nt.Obj().Pkg().Path() + "." + nt.Obj().Name()
+			}
+		}
+		return ""
+	}
+	noteGlobal := func(t types.Type, g *ssa.Global, who string) {
+		k := typeKey(t)
+		if k == "" || g == nil || !load.IsModulePkg(g.Pkg.Pkg.Path()) {
+			return
+		}
+		if typeGlobals[k] == nil {
+			typeGlobals[k] = map[*ssa.Global]string{}
+		}
+		if _, ok := typeGlobals[k][g]; !ok {
+			typeGlobals[k][g] = who
+		}
+	}
+	for _, f := range funcs {
+		s := an.Sum[f]
+		if s == nil || f.Blocks == nil {
+			continue
+		}
+		for i, st := range s.StoresInto {
+			if i < len(f.Params) {
+				for _, o := range effects.SortedOrigins(st) {
+					if o.Kind == "global" {
+						noteGlobal(f.Params[i].Type(), o.Global, shortFn(f))
+					}
+				}
+			}
+		}
+		for r, rd := range s.RetDeep {
+			if r < f.Signature.Results().Len() {
+				for _, o := range effects.SortedOrigins(rd) {
+					if o.Kind == "global" {
+						noteGlobal(f.Signature.Results().At(r).Type(), o.Global, shortFn(f))
+					}
+				}
+			}
+		}
+	}
+	if len(typeGlobals) > 0 {
+		for _, f := range rfuncs {
+			s := an.Sum[f]
+			if s == nil {
+				continue
+			}
+			for i, w := range s.WritesParam {
+				if i >= len(f.Params) {
+					continue
+				}
+				k := typeKey(f.Params[i].Type())
+				for g, who := range typeGlobals[k] {
+					written[g] = append(written[g], fmt.Sprintf("%s at %s (writes through a %s, which %s makes point into this variable)", shortFn(f), PosStr(prog, w.Pos), k, who))
+				}
+			}
+		}
+		for g := range written {
+			sort.Strings(written[g])
+		}
+	}
 	for _, pkg := range prog.Pkgs {
 		sp := prog.SSAPkgs[pkg.PkgPath]
 		if sp == nil {
